@@ -1,147 +1,111 @@
-import Rcgen.Theorems.C03
-import Rcgen.Proofs.Time
+import Rcgen.Proofs.ImportDecode
+import Rcgen.Theorems.C02
 /-
   C17 — importing a CA certificate recovers the fields it claims to recover.
-  Stated field by field on the glue (`Model/Import.lean`) applied to the content an RFC 5280
-  decoder yields for a generated certificate (`Spec.req*`, the "requested content" of C02):
-  import ∘ requested = identity on each supported field.  That a real certificate decodes to
-  the requested content is C02's business (checked per case).
+  Model: `Model/Import.lean` (`importCa`: rcgen's glue after the x509-parser decode).
+  `import_of_generated` is the statement end to end on the model: the glue applied to what a
+  generated certificate decodes to (C02's record) returns the generating fields.  The field
+  lemmas it is assembled from follow (proofs in Proofs/ImportFields.lean, Proofs/ImportDecode.lean).
+  That x509-parser yields the content the Spec decoder yields is observed by the check on every
+  imported certificate, not proved.
 -/
 namespace Rcgen.Theorems.C17
-open Rcgen Rcgen.Model Rcgen.Spec
+open Rcgen Rcgen.Model Rcgen.Spec Rcgen.Proofs
+
+abbrev subtreeSupported := ImportFields.subtreeSupported
+
+/-- **import ∘ generate = identity on the supported fields.**  For every parameter set: whatever
+    the import glue returns for the content a generated certificate decodes to has the
+    generating subject name, CA flag and path length (0..=255), key usages as a set, standard
+    extended key usages as a set, subject alternative names, supported name-constraint subtrees
+    (e-mail, DNS, IPv4 and IPv6 subnets), serial number as an integer and both validity
+    instants. -/
+theorem import_of_generated (crypto : Bool) (i : CertInputs)
+    (hc : ∀ e ∈ i.p.customExts, e.oid ∉ X509.knownOids) (p' : CertParams)
+    (h : importCa crypto (CertDecode.modelTbs i) = .ok p')
+    (hpl : ∀ n, i.p.isCa = .ca (some n) → n ≤ 255)
+    (hip : ∀ o, SanType.ip o ∈ i.p.sans → o.length = 4 ∨ o.length = 16)
+    (hother : ∀ oid v, SanType.otherName oid v ∈ i.p.sans → utf8Valid v = true)
+    (hnc : ∀ nc, i.p.nameConstraints = some nc →
+      nc.permitted.all subtreeSupported = true ∧ nc.excluded.all subtreeSupported = true) :
+    reqName p'.dn.iter = reqName i.p.dn.iter ∧
+    p'.isCa = i.p.isCa ∧
+    p'.keyUsages = KeyUsage.all.filter (fun k => i.p.keyUsages.contains k) ∧
+    (∀ e, e ∈ p'.ekus ↔ (e ∈ stdEkus ∧ ∃ x ∈ i.p.ekus, rfcEkuOid x = e.oid)) ∧
+    p'.sans = i.p.sans ∧
+    p'.nameConstraints = (match i.p.nameConstraints with
+      | some nc => if nc.isEmpty then none else some nc
+      | none => none) ∧
+    (∀ s, p'.serial = some s → ofBe s = reqSerial i) ∧
+    p'.notBefore.epochSeconds = i.p.notBefore.epochSeconds ∧
+    p'.notAfter.epochSeconds = i.p.notAfter.epochSeconds :=
+  ImportDecode.import_of_generated crypto i hc p' h hpl hip hother hnc
+
+/-- `get_extension_unique` never errs on a generated certificate: each of rcgen's own
+    extensions occurs at most once (C05), so the lookup returns it, or nothing -/
+theorem unique_extension_lookup (i : CertInputs)
+    (hc : ∀ e ∈ i.p.customExts, e.oid ∉ X509.knownOids) (o : List Nat) (ho : o ∈ X509.knownOids) :
+    uniqueExt (CertDecode.modelTbs i) o = .ok ((CertDecode.modelExts i).find? (Validate.hasOid o)) :=
+  ImportDecode.uniqueExt_model i hc o ho
 
 /-- subject name: see `C03.import_preserves_or_fails` (any name without a repeated type) -/
 theorem subject_name_recovered (n : Name) (dn : DistinguishedName) (h : importName n = .ok dn) :
-    reqName dn.iter = n := C03.import_preserves_or_fails n dn h
+    reqName dn.iter = n := ImportFields.subject_name_recovered n dn h
 
 /-- CA flag and path length -/
 theorem is_ca_recovered (oid : List Nat) (crit : Bool) :
     (∀ n, n ≤ 255 → importIsCa (some ⟨oid, crit, .basicConstraints true (some n)⟩) = .ok (.ca (some n))) ∧
     importIsCa (some ⟨oid, crit, .basicConstraints true none⟩) = .ok (.ca none) ∧
     importIsCa (some ⟨oid, crit, .basicConstraints false none⟩) = .ok .explicitNoCa ∧
-    importIsCa none = .ok .noCa := by
-  refine ⟨?_, rfl, rfl, rfl⟩
-  intro n hn
-  simp [importIsCa, hn]
+    importIsCa none = .ok .noCa := ImportFields.is_ca_recovered oid crit
 
-theorem index_lt (k : KeyUsage) : k.index < 9 := by cases k <;> decide
+theorem index_lt (k : KeyUsage) : k.index < 9 := ImportFields.index_lt k
 
-theorem index_inj (a b : KeyUsage) (h : a.index = b.index) : a = b := by
-  cases a <;> cases b <;> first | rfl | (simp [KeyUsage.index] at h)
+theorem index_inj (a b : KeyUsage) (h : a.index = b.index) : a = b := ImportFields.index_inj a b h
 
 /-- **key usages, as a set**: the named bits a decoder reads for a usage list import back as
     exactly the usages that occur in it (the bit-reversal detour of the real code is the
     identity on named-bit indices) -/
 theorem key_usage_reversal (kus : List KeyUsage) :
-    importKeyUsages (reqKeyUsageBits kus) = KeyUsage.all.filter (fun k => kus.contains k) := by
-  unfold importKeyUsages
-  apply List.filter_congr
-  intro k _
-  unfold reqKeyUsageBits
-  rw [Bool.eq_iff_iff]
-  simp only [List.contains_eq_mem, List.mem_filter, List.mem_range, List.any_eq_true, beq_iff_eq,
-    decide_eq_true_eq]
-  constructor
-  · intro ⟨_, k', hk', he⟩
-    rw [index_inj k' k he] at hk'; exact hk'
-  · intro h; exact ⟨index_lt k, k, h, rfl⟩
+    importKeyUsages (reqKeyUsageBits kus) = KeyUsage.all.filter (fun k => kus.contains k) :=
+  ImportFields.key_usage_reversal kus
 
 /-- serial number, as an integer -/
-theorem serial_recovered (n : Nat) : ofBe (serialBytesOfNat n) = n := by
-  unfold serialBytesOfNat
-  split
-  · rename_i h; subst h; rfl
-  · exact ofBe_beBytes n
+theorem serial_recovered (n : Nat) : ofBe (serialBytesOfNat n) = n := ImportFields.serial_recovered n
 
 /-- validity: the imported date-time denotes the decoded instant -/
-theorem validity_recovered (t : Int) : (dateTimeOfEpoch t).epochSeconds = t := by
-  have h := epochOfFields_utcOfEpoch t
-  simp only at h
-  unfold epochOfFields at h
-  split at h
-  · injection h with h
-    unfold DateTime.epochSeconds dateTimeOfEpoch
-    simp only
-    omega
-  · cases h
+theorem validity_recovered (t : Int) : (dateTimeOfEpoch t).epochSeconds = t :=
+  ImportFields.validity_recovered t
 
 /-- subject alternative names (values of the validated types: IP octets of length 4 or 16,
     otherName text valid UTF-8) -/
 theorem san_recovered (s : SanType)
     (hip : ∀ o, s = .ip o → o.length = 4 ∨ o.length = 16)
     (hother : ∀ oid v, s = .otherName oid v → utf8Valid v = true) :
-    importSan (reqSan s) = .ok s := by
-  cases s with
-  | rfc822 b => rfl
-  | dns b => rfl
-  | uri b => rfl
-  | ip o =>
-    have := hip o rfl
-    simp only [reqSan, importSan]
-    rcases this with h | h <;> simp [h]
-  | otherName oid v =>
-    have := hother oid v rfl
-    simp [reqSan, importSan, this]
+    importSan (reqSan s) = .ok s := ImportFields.san_recovered s hip hother
 
-/-- supported name-constraint subtrees (e-mail, DNS, IPv4 and IPv6 subnets with address and
-    mask of the family's size), any number, permitted or excluded alike: recovered in order -/
-def subtreeSupported : GeneralSubtree → Bool
-  | .rfc822 _ | .dns _ => true
-  | .ip (.v4 a m) => a.length == 4 && m.length == 4
-  | .ip (.v6 a m) => a.length == 16 && m.length == 16
-  | .directoryName _ => false
-
+/-- supported name-constraint subtrees, any number, permitted or excluded alike: recovered in order -/
 theorem subtrees_recovered (ts : List GeneralSubtree) (h : ts.all subtreeSupported = true) :
-    importSubtrees (ts.map (reqSubtree enumOf)) = .ok ts := by
-  induction ts with
-  | nil => rfl
-  | cons t ts ih =>
-    simp only [List.all_cons, Bool.and_eq_true] at h
-    have ih' := ih h.2
-    simp only [List.map_cons, importSubtrees, ih']
-    cases t with
-    | rfc822 b => rfl
-    | dns b => rfl
-    | directoryName dn => simp [subtreeSupported] at h
-    | ip c =>
-      cases c with
-      | v4 a m =>
-        have ha : a.length = 4 ∧ m.length = 4 := by simpa [subtreeSupported] using h.1
-        simp [reqSubtree, ha.1, ha.2]
-      | v6 a m =>
-        have ha : a.length = 16 ∧ m.length = 16 := by simpa [subtreeSupported] using h.1
-        simp [reqSubtree, ha.1, ha.2]
+    importSubtrees (ts.map (reqSubtree enumOf)) = .ok ts := ImportFields.subtrees_recovered ts h
 
-/-- the standard extended key usages are recovered as a set: a standard purpose is imported
-    exactly when its identifier was written -/
+/-- the standard extended key usages are recovered as a set -/
 theorem ekus_recovered (ekus : List Eku) (e : Eku) :
-    e ∈ importEkus (ekus.map rfcEkuOid) ↔ (e ∈ stdEkus ∧ ∃ x ∈ ekus, rfcEkuOid x = e.oid) := by
-  unfold importEkus
-  rw [List.mem_filter]
-  simp only [List.contains_eq_mem, List.mem_map, decide_eq_true_eq]
+    e ∈ importEkus (ekus.map rfcEkuOid) ↔ (e ∈ stdEkus ∧ ∃ x ∈ ekus, rfcEkuOid x = e.oid) :=
+  ImportFields.ekus_recovered ekus e
 
 /-- the subject key identifier is captured as a fixed key identifier -/
 theorem ski_captured (crypto : Bool) (c : TbsCert) (b : Bytes) (rest : List Bytes)
     (h : c.exts.filterMap skiOf = b :: rest) : importKid crypto c = .ok (.preSpecified b) :=
-  C03.import_captures_ski crypto c b rest h
+  ImportFields.ski_captured crypto c b rest h
 
 /-- re-issuing: the key-usage set written from the imported list is the one imported -/
 theorem reissue_key_usages (kus : List KeyUsage) :
-    reqKeyUsageBits (importKeyUsages (reqKeyUsageBits kus)) = reqKeyUsageBits kus := by
-  rw [key_usage_reversal]
-  unfold reqKeyUsageBits
-  apply List.filter_congr
-  intro i _
-  rw [Bool.eq_iff_iff]
-  simp only [List.any_eq_true, List.mem_filter, List.contains_eq_mem, decide_eq_true_eq, beq_iff_eq]
-  constructor
-  · intro ⟨k, ⟨_, hk⟩, he⟩; exact ⟨k, hk, he⟩
-  · intro ⟨k, hk, he⟩
-    exact ⟨k, ⟨by cases k <;> decide, hk⟩, he⟩
+    reqKeyUsageBits (importKeyUsages (reqKeyUsageBits kus)) = reqKeyUsageBits kus :=
+  ImportFields.reissue_key_usages kus
 
-/-! non-vacuity -/
-example : importKeyUsages (reqKeyUsageBits [.crlSign, .digitalSignature, .crlSign]) =
-    [.digitalSignature, .crlSign] := by decide
-example : (dateTimeOfEpoch 1700000000).epochSeconds = 1700000000 := validity_recovered _
+/-! non-vacuity: the C02 example certificate imports (the glue returns parameters) -/
+example : (match importCa true (CertDecode.modelTbs C02.exInputs) with
+    | .ok _ => true
+    | .error _ => false) = true := by decide +kernel
 
 end Rcgen.Theorems.C17
